@@ -2000,9 +2000,14 @@ func (p *parser) projection(prec int) (Node, error) {
 					return nil, err
 				}
 
-				node, err = p.expression(newPrec)
+				right, err := p.expression(newPrec)
 				if err != nil {
 					return nil, err
+				}
+
+				node = &PipeNode{
+					Left:  node,
+					Right: right,
 				}
 			default:
 				return nil, &unexpectedTokenError{p.curr.Value}
